@@ -281,7 +281,11 @@ def replay_soundness(record, families):
     still judged invalid."""
     spec, seed = record["spec"], record.get("seed", 0)
     cand = record["probe"]["schedule"]
-    sess = probe.Session(spec, seed)
+    try:
+        sess = probe.Session(spec, seed)
+    except B.BuildRejected as exc:
+        # the library refuses the problem at creation: no schedule is returned for it any more
+        return False, f"the problem is rejected at creation ({exc.stage}: {type(exc.exc).__name__})"
     st, sched, m = sess.admitted(cand, pin_horizon=False)
     if st != "sat":
         return False, f"recorded schedule is no longer admitted ({st})"
